@@ -216,8 +216,10 @@ def program(draw):
             if len(si) != 1 or not cands:
                 continue
             j = draw(st.sampled_from(cands))
-            prog.append(("dot", draw(st.sampled_from(["np.dot", "matmul", "method", "vdot", "inner"])), i, j))
+            prog.append(("dot", draw(st.sampled_from(["np.dot", "matmul", "method", "vdot", "inner", "method_out", "np.dot_out"])), i, j))
             regs.append((T.dmul(di, regs[j][0]), ()))
+            if prog[-1][1].endswith("_out"):
+                regs.append((T.dmul(di, regs[j][0]), ()))  # the out= buffer is a register of its own
         elif kind == "outer":
             cands = [j for j, (d, s) in enumerate(regs) if len(s) == 1]
             if len(si) != 1 or not cands:
@@ -643,13 +645,28 @@ def execute(case, part, leaf_units=None, check=True):
                 a, b = L[i], L[j]
                 if form == "method" and not hasattr(a, "units"):
                     form = "np.dot"  # ndarray.dot of a bare array is numpy's own method, not unyt's
+                if form == "method_out" and not hasattr(a, "units"):
+                    form = "np.dot_out"
+                buf = None
+                if form.endswith("_out"):
+                    from unyt import unyt_array as _ua
+
+                    # a buffer labelled with an unrelated unit: the call has to fill it AND label it with the product's unit
+                    buf = _ua(np.zeros(()), "s", registry=getattr(getattr(a, "units", None), "registry", None) or getattr(getattr(b, "units", None), "registry", None))
                 r = {"np.dot": lambda: np.dot(a, b), "matmul": lambda: a @ b, "method": lambda: a.dot(b),
-                     "vdot": lambda: np.vdot(a, b), "inner": lambda: np.inner(a, b)}[form]()
+                     "vdot": lambda: np.vdot(a, b), "inner": lambda: np.inner(a, b),
+                     "method_out": lambda: a.dot(b, out=buf), "np.dot_out": lambda: np.dot(a, b, out=buf)}[form]()
                 x, y = F[i], F[j]
+                if buf is not None:
+                    r = r.copy() if hasattr(r, "copy") else r
                 L.append(r)
                 F.append(RefReg(np.dot(x.si, y.si), np.dot(x.err, np.abs(y.si)) + np.dot(np.abs(x.si), y.err) + 64 * EPS * np.dot(x.err, y.err) + len(x.si) * np.dot(np.abs(x.si), np.abs(y.si)),
                                 T.dmul(x.dim, y.dim), x.taint or y.taint))
                 judge(len(L) - 1, what)
+                if buf is not None:
+                    L.append(buf)
+                    F.append(F[-1])
+                    judge(len(L) - 1, what + ":buffer")
             elif kind == "outer":
                 _, op, i, j = ins
                 a, b = L[i], L[j]
